@@ -44,6 +44,11 @@ CLAIMED = {
     technique="deterministic simulation of accessor sessions: seeded schedules of view creation (aliasing views of one paragraph), setter / clearing-setter / getter calls from a 168-row accessor table and restarts; oracle = reference codecs + C04 list model + locality diff + strict re-read",
     text="Views of control, apt, buildinfo, copyright and DEP-3 paragraphs are created as aliases into one tree at scheduled times; setters from the accessor table are called in seeded sequences through one view and read back through every live view and a fresh one; the C04 list model demands exactly one field with the documented name holding the reference encoding (replaced in place or appended, removed when cleared), the locality diff demands that nothing else moves, the printed text must re-read; at the start every getter is compared with the reference reading of the raw field.",
     note="Trusted: the accessor table (field names, separators, yes/no spelling written from the Debian field definitions) and reference codecs. Changes has one setter and no paragraph access: not covered here."),
+
+ "C11": dict(level="exploration", ref="DESIGN.md §2 C11",
+    technique="deterministic simulation of relation-editing sessions: seeded schedules over a root handle and entry/relation handles acquired at different times (freshness tracked across re-rooting operations), list-of-lists model + independent reference relation reader + strict re-parse + lexical separator checks after every judged step",
+    text="Seeded sessions over one relationship field: the root owner pushes/inserts/replaces/removes entries, other clients obtain entry and relation handles at scheduled times and edit through them (alternatives, version constraints with all operators and epochs, architecture qualifier/list, build profiles), with operands built by parsing, constructors and the builder; after every judged step the printed field is read by an independent reference reader and by the strict reader and compared with the list-of-lists model, separators are checked lexically and untouched entries must keep their text. Steps through handles that pre-date a re-rooting are scheduled but not judged.",
+    note="Trusted: list-of-lists model (Appendix E), reference relation reader (model/relations.rs), the scheduler's freshness bookkeeping for handles."),
 }
 
 NOT_APPLICABLE = {
